@@ -28,13 +28,20 @@ theorem simpleEnv_var_nil (d : Decls) (defs : Defs) (l : Nat) :
   simp [simpleEnv]
   rfl
 
-theorem simpleEnv_var_cons (d : Decls) (defs : Defs) (l : Nat) (n : String) (rest : List String) :
-    (simpleEnv d defs).var l (n :: rest) =
+theorem simpleEnv_var_single (d : Decls) (defs : Defs) (l : Nat) (n : String) :
+    (simpleEnv d defs).var l [n] =
       if l == 0 && (n == "$" || n == "pc") then .ok .unknown
       else if l == 0 && isAsmBuiltinName n then .ok (.asmBuiltin n)
-      else match d.symbols.tryGetByName [] l (n :: rest) with
+      else match d.symbols.tryGetByName [] l [n] with
         | some r => slotVal defs r
         | none => .ok .unknown := by
+  simp [simpleEnv]
+  rfl
+
+theorem simpleEnv_var_multi (d : Decls) (defs : Defs) (l : Nat) (n m : String) (rest : List String) :
+    (simpleEnv d defs).var l (n :: m :: rest) = match d.symbols.tryGetByName [] l (n :: m :: rest) with
+      | some r => slotVal defs r
+      | none => .ok .unknown := by
   simp [simpleEnv]
   rfl
 
@@ -60,14 +67,19 @@ theorem simpleEnv_defLe (d : Decls) (defs : Defs) (d' : Decls) (defs' : Defs) (h
       rw [simpleEnv_var_nil] at hv ⊢
       exact tail hv
     | cons n rest =>
-      rw [simpleEnv_var_cons] at hv ⊢
-      by_cases h1 : (l == 0 && (n == "$" || n == "pc")) = true
-      · rw [if_pos h1] at hv; injection hv with hv; subst hv; cases hp
-      · rw [if_neg h1] at hv ⊢
-        by_cases h2 : (l == 0 && isAsmBuiltinName n) = true
-        · rw [if_pos h2] at hv ⊢; exact hv
-        · rw [if_neg h2] at hv ⊢
-          exact tail hv
+      cases rest with
+      | cons m rest' =>
+        rw [simpleEnv_var_multi] at hv ⊢
+        exact tail hv
+      | nil =>
+        rw [simpleEnv_var_single] at hv ⊢
+        by_cases h1 : (l == 0 && (n == "$" || n == "pc")) = true
+        · rw [if_pos h1] at hv; injection hv with hv; subst hv; cases hp
+        · rw [if_neg h1] at hv ⊢
+          by_cases h2 : (l == 0 && isAsmBuiltinName n) = true
+          · rw [if_pos h2] at hv ⊢; exact hv
+          · rw [if_neg h2] at hv ⊢
+            exact tail hv
   · intro f a c v hv hp
     have : (simpleEnv d defs).fn f a c = .ok .unknown := rfl
     rw [this] at hv; injection hv with hv; subst hv; cases hp
